@@ -71,38 +71,49 @@ func (e *Engine) applyRenames(base map[string][]Sym) {
 			continue
 		}
 		old, cur := base[name], e.symbolsOf(fn)
-		if len(old) != len(cur) {
-			continue
-		}
 		ren := map[string]string{}
 		ok := true
 		curNames := map[string]bool{}
 		for _, s := range cur {
 			curNames[s.Name] = true
 		}
-		for i := range old {
-			if old[i].Kind != cur[i].Kind || old[i].Type != cur[i].Type {
-				ok = false
-				break
-			}
-			if old[i].Name == cur[i].Name || old[i].Name == "" || old[i].Name == "_" {
+		oldNames := map[string]bool{}
+		for _, s := range old {
+			oldNames[s.Name] = true
+		}
+		// names that disappeared / appeared, grouped by (kind, type) and kept in source order: the k-th vanished variable
+		// of a group is the k-th new variable of the same group when the group lost and gained equally many (variables
+		// that were merely added or removed elsewhere do not disturb this)
+		gone := map[string][]string{}
+		came := map[string][]string{}
+		seenOld := map[string]bool{}
+		for _, s := range old {
+			if s.Name == "" || s.Name == "_" || curNames[s.Name] || seenOld[s.Name] {
 				continue
 			}
-			if prev, dup := ren[old[i].Name]; dup && prev != cur[i].Name {
-				ok = false
-				break
+			seenOld[s.Name] = true
+			k := s.Kind + "|" + s.Type
+			gone[k] = append(gone[k], s.Name)
+		}
+		seenCur := map[string]bool{}
+		for _, s := range cur {
+			if s.Name == "" || s.Name == "_" || oldNames[s.Name] || seenCur[s.Name] {
+				continue
 			}
-			ren[old[i].Name] = cur[i].Name
+			seenCur[s.Name] = true
+			k := s.Kind + "|" + s.Type
+			came[k] = append(came[k], s.Name)
+		}
+		for k, g := range gone {
+			c := came[k]
+			if len(c) != len(g) {
+				continue // not a pure rename within this group: leave those names alone
+			}
+			for i := range g {
+				ren[g[i]] = c[i]
+			}
 		}
 		if !ok || len(ren) == 0 {
-			continue
-		}
-		for o := range ren {
-			if curNames[o] {
-				ok = false // the old name still exists: not a pure rename
-			}
-		}
-		if !ok {
 			continue
 		}
 		var pairs []string
